@@ -3,6 +3,17 @@
 //! Font DICTs with their own local subroutines (CFF2 and CID-keyed CFF), a name-keyed CFF with more
 //! than 255 glyphs and subroutines.  Tables are written by the harness's own writers (cffw.rs,
 //! vh::fontgen); every glyph has a distinct outline, advance and left side bearing.
+//!
+//! Boundary glyphs (`families`): wherever the subsetter re-encodes charstring operands (CFF2 -> CFF
+//! conversion) or moves charstrings into a rebuilt table (CFF subset, Type 1 -> CID conversion), the
+//! retained glyphs must carry operands on both sides of every Type 2 number-encoding boundary
+//! (-1133..-1130, -109..-106, 106..109, 1130..1133, the lead-byte steps 363/364, 619/620, 875/876 of the
+//! two byte forms, the shortint extremes 32766/32767/-32767/-32768, 16.16 fixed values, integers in a
+//! longer form than needed) as PATH coordinates of every operator family (moves, lines, all curve
+//! operators, the four flex operators) and as hint values (hstem/vstem, hstemhm/vstemhm, implicit vstem
+//! before hintmask, hintmask/cntrmask with two mask bytes); for CFF / CID sources also as arguments
+//! handed to a subroutine, inside local and global subroutines, and behind a width operand.  A wrong
+//! byte in any re-encoded operand then moves a point of an outline.
 use super::cffw::{self, CffSpec, CharsetSpec, FdSpec};
 use super::ind::Tables;
 use vh::fontgen;
@@ -41,6 +52,433 @@ fn op(args: &[i32], o: u8) -> Vec<u8> {
     v
 }
 
+// ---- boundary glyphs -------------------------------------------------------------------------------
+
+const VSTEM: u8 = 3;
+const HSTEM: u8 = 1;
+const VMOVETO: u8 = 4;
+const HLINETO: u8 = 6;
+const VLINETO: u8 = 7;
+const HSTEMHM: u8 = 18;
+const HINTMASK: u8 = 19;
+const CNTRMASK: u8 = 20;
+const HMOVETO: u8 = 22;
+const VSTEMHM: u8 = 23;
+const RCURVELINE: u8 = 24;
+const RLINECURVE: u8 = 25;
+const VVCURVETO: u8 = 26;
+const HHCURVETO: u8 = 27;
+const VHCURVETO: u8 = 30;
+const HVCURVETO: u8 = 31;
+const ESC: u8 = 12;
+const HFLEX: u8 = 34;
+const FLEX: u8 = 35;
+const HFLEX1: u8 = 36;
+const FLEX1: u8 = 37;
+
+/// One operand: integer in the shortest form, 16.16 fixed (raw), integer in the three byte form
+/// whatever its size (longer than needed).
+#[derive(Clone, Copy, Debug, PartialEq)]
+pub enum Num {
+    I(i32),
+    F(i32),
+    L(i32),
+}
+
+fn enc(a: Num) -> Vec<u8> {
+    match a {
+        Num::I(v) => n(v),
+        Num::F(raw) => {
+            let b = raw.to_be_bytes();
+            vec![255, b[0], b[1], b[2], b[3]]
+        }
+        Num::L(v) => {
+            let b = (v as i16).to_be_bytes();
+            vec![28, b[0], b[1]]
+        }
+    }
+}
+
+/// Both sides of every boundary of the one and two byte forms (and of their lead bytes), in an order
+/// whose partial sums stay small: v, -v, ...
+const SMALL: [i32; 35] = [
+    106, -106, 107, -107, 108, -108, 109, -109, 363, -363, 364, -364, 619, -619, 620, -620, 875, -875, 876, -876, 1130, -1130, 1131, -1131, 1132,
+    -1132, 1133, -1133, 255, -255, 256, -256, 0, 1, -1,
+];
+/// 16.16 values (raw): halves, the smallest steps, values next to the integer boundaries, integral
+/// values kept as fixed, the extremes.
+const FIX: [i32; 16] = [
+    0x8000, -0x8000, 1, -1, 4, -4, 0x006B_8000, -0x006B_8000, 0x046B_8000, -0x046B_8000, 0x046C_0000, -0x046C_0000, 0x0064_0000, -0x006C_0000, 0x7FFF_FFFF,
+    i32::MIN,
+];
+/// the values the vacuity counters name
+pub const KEY_VALUES: [i32; 10] = [-32768, -1132, -1131, -108, -107, 107, 108, 1131, 1132, 32767];
+
+/// Charstring under construction: every operand written is remembered (for the counters).
+struct Cs {
+    b: Vec<u8>,
+    used: Vec<Num>,
+}
+
+impl Cs {
+    fn new() -> Cs {
+        Cs { b: Vec::new(), used: Vec::new() }
+    }
+    fn op(&mut self, args: &[Num], o: u8) {
+        for a in args {
+            self.b.extend(enc(*a));
+            self.used.push(*a);
+        }
+        self.b.push(o);
+    }
+    fn esc(&mut self, args: &[Num], o: u8) {
+        for a in args {
+            self.b.extend(enc(*a));
+            self.used.push(*a);
+        }
+        self.b.push(ESC);
+        self.b.push(o);
+    }
+    fn ints(&mut self, args: &[i32], o: u8) {
+        let v: Vec<Num> = args.iter().map(|a| Num::I(*a)).collect();
+        self.op(&v, o);
+    }
+    fn mask(&mut self, o: u8, bytes: &[u8]) {
+        self.b.push(o);
+        self.b.extend_from_slice(bytes);
+    }
+}
+
+/// Two streams over one list of values, one for operands that move the pen in x and one for y (rotated
+/// by two so that a pair is never (v, v)); consumed in list order, so the pen stays near the origin.
+struct Streams {
+    vals: Vec<Num>,
+    xi: usize,
+    yi: usize,
+}
+
+impl Streams {
+    fn small() -> Streams {
+        Streams { vals: SMALL.iter().map(|v| Num::I(*v)).collect(), xi: 0, yi: 0 }
+    }
+    fn x(&mut self) -> Num {
+        let v = self.vals[self.xi % self.vals.len()];
+        self.xi += 1;
+        v
+    }
+    fn y(&mut self) -> Num {
+        let v = self.vals[(self.yi + 2) % self.vals.len()];
+        self.yi += 1;
+        v
+    }
+    /// operands for a pattern: 'x' / 'y' the next value of that stream, 'c' a constant
+    fn args(&mut self, pat: &str) -> Vec<Num> {
+        pat.chars()
+            .map(|c| match c {
+                'x' => self.x(),
+                'y' => self.y(),
+                _ => Num::I(50),
+            })
+            .collect()
+    }
+    fn done(&self, both: bool) -> bool {
+        self.xi >= self.vals.len() && (!both || self.yi >= self.vals.len())
+    }
+}
+
+pub const FAMILIES: [&str; 20] = [
+    "moves", "rlineto", "hvlineto", "rrcurveto", "hhcurveto", "vvcurveto", "hvcurveto", "vhcurveto", "rcurveline", "rlinecurve", "flex", "hflex", "hflex1",
+    "flex1", "stems", "stemhm", "hintmask", "fixed", "extremes", "long-form",
+];
+/// CFF / CID only (CFF2 glyphs that call subroutines are lost by the conversion: known finding 1)
+pub const SUBR_FAMILIES: [&str; 3] = ["subr-arguments", "subr-body", "gsubr-body"];
+/// index of the local / global subroutine that holds boundary operands
+const LSUBR_BOUNDS: i32 = 5;
+const GSUBR_BOUNDS: i32 = 4;
+
+fn curve_groups(st: &mut Streams, first_h: bool, groups: usize, extra: bool) -> Vec<Num> {
+    let mut a = Vec::new();
+    let mut h = first_h;
+    for _ in 0..groups {
+        a.extend(st.args(if h { "xxyy" } else { "yxyx" }));
+        h = !h;
+    }
+    if extra {
+        // the last group started horizontally (ends vertically): the extra operand is a dx, and vice versa
+        a.extend(st.args(if !h { "x" } else { "y" }));
+    }
+    a
+}
+
+/// The body of the boundary glyph of a family (no width, no endchar).
+fn family_body(fam: &str) -> Cs {
+    let mut c = Cs::new();
+    let mut st = Streams::small();
+    let mut round = 0usize;
+    match fam {
+        "moves" => {
+            while !st.done(true) {
+                c.op(&st.args("xy"), RMOVETO);
+                c.ints(&[3, 4], RLINETO);
+                c.op(&st.args("x"), HMOVETO);
+                c.ints(&[7], HLINETO);
+                c.op(&st.args("y"), VMOVETO);
+                c.ints(&[9], VLINETO);
+            }
+        }
+        "rlineto" => {
+            c.ints(&[10, 10], RMOVETO);
+            while !st.done(true) {
+                let k = [1usize, 2, 22, 5][round % 4];
+                c.op(&st.args(&"xy".repeat(k)), RLINETO);
+                round += 1;
+            }
+        }
+        "hvlineto" => {
+            c.ints(&[10, 20], RMOVETO);
+            while !st.done(true) {
+                let k = [1usize, 2, 3, 4, 7, 12][round % 6];
+                let hpat: String = (0..k).map(|i| if i % 2 == 0 { 'x' } else { 'y' }).collect();
+                let vpat: String = (0..k).map(|i| if i % 2 == 0 { 'y' } else { 'x' }).collect();
+                c.op(&st.args(&hpat), HLINETO);
+                c.op(&st.args(&vpat), VLINETO);
+                round += 1;
+            }
+        }
+        "rrcurveto" => {
+            c.ints(&[20, 10], RMOVETO);
+            while !st.done(true) {
+                let k = [1usize, 2, 7][round % 3];
+                c.op(&st.args(&"xyxyxy".repeat(k)), RRCURVETO);
+                round += 1;
+            }
+        }
+        "hhcurveto" => {
+            c.ints(&[20, 20], RMOVETO);
+            while !st.done(true) {
+                let k = [1usize, 2, 5][round % 3];
+                let lead = if round % 2 == 0 { "y" } else { "" };
+                c.op(&st.args(&format!("{}{}", lead, "xxyx".repeat(k))), HHCURVETO);
+                round += 1;
+            }
+        }
+        "vvcurveto" => {
+            c.ints(&[30, 20], RMOVETO);
+            while !st.done(true) {
+                let k = [1usize, 2, 5][round % 3];
+                let lead = if round % 2 == 0 { "x" } else { "" };
+                c.op(&st.args(&format!("{}{}", lead, "yxyy".repeat(k))), VVCURVETO);
+                round += 1;
+            }
+        }
+        "hvcurveto" | "vhcurveto" => {
+            c.ints(&[30, 30], RMOVETO);
+            while !st.done(true) {
+                let groups = [1usize, 1, 2, 2, 3, 4][round % 6];
+                let extra = round % 2 == 1;
+                let a = curve_groups(&mut st, fam == "hvcurveto", groups, extra);
+                c.op(&a, if fam == "hvcurveto" { HVCURVETO } else { VHCURVETO });
+                round += 1;
+            }
+        }
+        "rcurveline" => {
+            c.ints(&[40, 30], RMOVETO);
+            while !st.done(true) {
+                let k = [1usize, 2, 4][round % 3];
+                c.op(&st.args(&format!("{}xy", "xyxyxy".repeat(k))), RCURVELINE);
+                round += 1;
+            }
+        }
+        "rlinecurve" => {
+            c.ints(&[40, 40], RMOVETO);
+            while !st.done(true) {
+                let k = [1usize, 2, 9][round % 3];
+                c.op(&st.args(&format!("{}xyxyxy", "xy".repeat(k))), RLINECURVE);
+                round += 1;
+            }
+        }
+        "flex" => {
+            c.ints(&[50, 40], RMOVETO);
+            while !st.done(true) {
+                c.esc(&st.args("xyxyxyxyxyxyc"), FLEX);
+            }
+        }
+        "hflex" => {
+            c.ints(&[50, 50], RMOVETO);
+            while !st.done(true) {
+                c.esc(&st.args("xxyxxxx"), HFLEX);
+            }
+        }
+        "hflex1" => {
+            c.ints(&[60, 50], RMOVETO);
+            while !st.done(true) {
+                c.esc(&st.args("xyxyxxxyx"), HFLEX1);
+            }
+        }
+        "flex1" => {
+            c.ints(&[60, 60], RMOVETO);
+            while !st.done(true) {
+                c.esc(&st.args("xyxyxyxyxyx"), FLEX1);
+            }
+        }
+        "stems" => {
+            // 9 + 9 stems, every boundary value as a hint operand once, then as a coordinate
+            c.op(&st.args(&"x".repeat(18)), HSTEM);
+            c.op(&st.args(&"x".repeat(18)), VSTEM);
+            c.ints(&[70, 60], RMOVETO);
+            let mut st = Streams::small();
+            while !st.done(true) {
+                c.op(&st.args(&"xy".repeat(6)), RLINETO);
+            }
+        }
+        "stemhm" => {
+            // 3 + 3 stems declared by hstemhm / vstemhm: one mask byte
+            c.op(&st.args(&"x".repeat(6)), HSTEMHM);
+            c.op(&st.args(&"x".repeat(6)), VSTEMHM);
+            c.mask(CNTRMASK, &[0xA4]);
+            c.mask(HINTMASK, &[0x1C]);
+            c.ints(&[60, 70], RMOVETO);
+            while !st.done(true) {
+                c.op(&st.args(&"xy".repeat(3)), RLINETO);
+                c.mask(HINTMASK, &[0xFC]);
+                c.op(&st.args("yxyx"), VHCURVETO);
+            }
+        }
+        "hintmask" => {
+            // 5 stems by hstemhm + 4 implicit vertical stems (operands in front of the first hintmask) = 9 stems:
+            // two mask bytes, chosen to look like operators and number lead bytes
+            c.op(&st.args(&"x".repeat(10)), HSTEMHM);
+            for a in st.args(&"x".repeat(8)) {
+                c.b.extend(enc(a));
+                c.used.push(a);
+            }
+            c.mask(HINTMASK, &[0x1C, 0x80]);
+            c.mask(CNTRMASK, &[0x0B, 0x00]);
+            c.ints(&[70, 70], RMOVETO);
+            while !st.done(true) {
+                c.op(&st.args(&"xy".repeat(4)), RLINETO);
+                c.mask(HINTMASK, &[0xFF, 0x80]);
+                c.op(&st.args("xyxyxy"), RRCURVETO);
+                c.mask(HINTMASK, &[0x0E, 0x00]);
+            }
+        }
+        "fixed" => {
+            // pen: the partial sums of either stream stay within -8 .. 32760, the start is negative (allsorts'
+            // visitor refuses coordinates beyond int16)
+            let mut fs = Streams { vals: FIX.iter().map(|v| Num::F(*v)).collect(), xi: 0, yi: 0 };
+            c.op(&[Num::F(-0x0050_8000), Num::I(-70)], RMOVETO);
+            while !fs.done(true) {
+                c.op(&fs.args("xy"), RLINETO);
+                c.op(&[fs.x(), Num::I(3), Num::I(-3), fs.y(), fs.x(), fs.y()], RRCURVETO);
+                c.op(&fs.args("xyx"), HLINETO);
+            }
+        }
+        "extremes" => {
+            // the shortint extremes, pen kept inside int16 by hand (allsorts' visitor refuses anything beyond)
+            c.ints(&[-32768, 32767], RMOVETO); //                 (-32768, 32767)
+            c.ints(&[32767, -32767], RLINETO); //                 (-1, 0)
+            c.ints(&[32766, -32768, -32767, 32767], RLINETO); //  (32765, -32768) (-2, -1)
+            c.ints(&[32767, -32767, -32768, 32766], HLINETO); //  (32765, -1) (32765, -32768) (-3, -32768) (-3, -2)
+            c.ints(&[32767, -32765, -32767, 32765], VLINETO); //  (-3, 32765) (-32768, 32765) (-32768, -2) (-3, -2)
+            c.ints(&[-2, 2], RLINETO); //                         (-5, 0)
+            c.ints(&[32767, 1, -32767, -32768, 1, 32767], RRCURVETO); // (32762, 1) (-5, -32767) (-4, 0)
+            c.ints(&[32767], HMOVETO); //                         (32763, 0)
+            c.ints(&[-32768, 5], RLINETO); //                     (-5, 5)
+            c.ints(&[-32768], VMOVETO); //                        (-5, -32763)
+            c.ints(&[7, 32767], RLINETO); //                      (2, 4)
+        }
+        "long-form" => {
+            c.op(&[Num::L(80), Num::L(70)], RMOVETO);
+            c.op(&[Num::L(100), Num::L(-107), Num::L(107), Num::L(108), Num::L(-108), Num::L(1131), Num::L(-1131), Num::L(-1132), Num::L(0), Num::L(1)], RLINETO);
+            c.op(&[Num::L(1132), Num::I(1132), Num::L(-1), Num::F(0x0001_0000), Num::L(-1132), Num::I(-1132)], RRCURVETO);
+        }
+        // ---- CFF / CID only: subroutines
+        "subr-arguments" => {
+            // the operands of a bare rlineto in local subroutine 2 come from the caller
+            c.ints(&[80, 80], RMOVETO);
+            while !st.done(true) {
+                let a = st.args("xy");
+                for v in &a {
+                    c.b.extend(enc(*v));
+                    c.used.push(*v);
+                }
+                c.b.extend(call(2, CALLSUBR));
+            }
+        }
+        "subr-body" => {
+            c.ints(&[90, 80], RMOVETO);
+            c.b.extend(call(LSUBR_BOUNDS, CALLSUBR));
+            c.ints(&[5, 6], RLINETO);
+            c.b.extend(call(LSUBR_BOUNDS, CALLSUBR));
+        }
+        "gsubr-body" => {
+            c.ints(&[90, 90], RMOVETO);
+            c.b.extend(call(GSUBR_BOUNDS, CALLGSUBR));
+            c.ints(&[-5, 6], RLINETO);
+        }
+        _ => panic!("unknown family {}", fam),
+    }
+    c
+}
+
+/// A subroutine that draws through every boundary value.
+fn bounds_subr(cff2: bool, shift: i32) -> Vec<u8> {
+    let mut c = Cs::new();
+    let mut st = Streams::small();
+    c.ints(&[shift, 1], RLINETO);
+    while !st.done(true) {
+        c.op(&st.args(&"xy".repeat(8)), RLINETO);
+    }
+    fin(c.b, cff2, RETURN)
+}
+
+pub struct Bound {
+    pub gid: u16,
+    pub family: &'static str,
+    /// KEY_VALUES that occur as integer operands of the glyph (through its subroutines too)
+    pub ints: Vec<i32>,
+    /// number of 16.16 operands
+    pub fixed: usize,
+}
+
+/// The boundary glyph of a family as a charstring: `width` (CFF only) goes in front of the first
+/// stack-clearing operator.
+fn family_glyph(fam: &'static str, gid: u16, cff2: bool, width: Option<i32>) -> (Vec<u8>, Bound) {
+    let c = family_body(fam);
+    let mut used = c.used.clone();
+    if matches!(fam, "subr-body" | "gsubr-body") {
+        used.extend(SMALL.iter().map(|v| Num::I(*v)));
+    }
+    let mut b = Vec::new();
+    if let (false, Some(w)) = (cff2, width) {
+        b.extend(n(w));
+        used.push(Num::I(w));
+    }
+    b.extend(c.b);
+    let ints: Vec<i32> = KEY_VALUES.iter().cloned().filter(|k| used.iter().any(|u| matches!(u, Num::I(v) | Num::L(v) if v == k))).collect();
+    let fixed = used.iter().filter(|u| matches!(u, Num::F(_))).count();
+    (fin(b, cff2, ENDCHAR), Bound { gid, family: fam, ints, fixed })
+}
+
+/// Glyphs 1 .. of a font: the boundary glyph of every family (with the subroutine families when `subrs`).
+fn family_glyphs(first: u16, cff2: bool, subrs: bool) -> (Vec<Vec<u8>>, Vec<Bound>) {
+    let mut fams: Vec<&'static str> = FAMILIES.to_vec();
+    if subrs {
+        fams.extend(SUBR_FAMILIES);
+    }
+    let mut glyphs = Vec::new();
+    let mut bounds = Vec::new();
+    for (i, fam) in fams.into_iter().enumerate() {
+        let gid = first + i as u16;
+        // CFF: every other glyph has a width operand, a boundary value itself
+        let width = if i % 2 == 0 { Some(SMALL[(2 * i + 2) % SMALL.len()]) } else { None };
+        let (g, b) = family_glyph(fam, gid, cff2, width);
+        glyphs.push(g);
+        bounds.push(b);
+    }
+    (glyphs, bounds)
+}
+
 /// subroutine number operand (bias 107: fewer than 1240 subroutines)
 fn call(index: i32, o: u8) -> Vec<u8> {
     op(&[index - 107], o)
@@ -65,6 +503,14 @@ fn lsubrs(fd: i32, cff2: bool) -> Vec<Vec<u8>> {
     ]
 }
 
+/// ... and 5: lines through every boundary value
+fn lsubrs_b(fd: i32, cff2: bool) -> Vec<Vec<u8>> {
+    let mut v = lsubrs(fd, cff2);
+    assert_eq!(v.len() as i32, LSUBR_BOUNDS);
+    v.push(bounds_subr(cff2, 2 + fd));
+    v
+}
+
 /// Global subroutines: 0 calls global 2, 1 a line, 2 a line, 3 unused.
 fn gsubrs(cff2: bool) -> Vec<Vec<u8>> {
     vec![
@@ -73,6 +519,14 @@ fn gsubrs(cff2: bool) -> Vec<Vec<u8>> {
         fin(op(&[-7, 11], RLINETO), cff2, RETURN),
         fin(op(&[80, 80], RLINETO), cff2, RETURN),
     ]
+}
+
+/// ... and 4: lines through every boundary value
+fn gsubrs_b(cff2: bool) -> Vec<Vec<u8>> {
+    let mut v = gsubrs(cff2);
+    assert_eq!(v.len() as i32, GSUBR_BOUNDS);
+    v.push(bounds_subr(cff2, 9));
+    v
 }
 
 fn glyph(g: i32, cff2: bool, subrs: bool) -> Vec<u8> {
@@ -101,6 +555,8 @@ pub struct Syn {
     pub kind: String,
     pub tables: Tables,
     pub file: Vec<u8>,
+    /// the boundary glyphs of the font
+    pub bounds: Vec<Bound>,
 }
 
 fn wrap(label: &str, kind: &str, table_tag: &str, table: Vec<u8>, n_glyphs: usize) -> Syn {
@@ -121,7 +577,23 @@ fn wrap(label: &str, kind: &str, table_tag: &str, table: Vec<u8>, n_glyphs: usiz
     ];
     let file = fontgen::build_sfnt(0x4F54544F, &tables);
     let t = Tables::from_sfnt(&file, 0).expect("own sfnt");
-    Syn { label: label.to_string(), kind: kind.to_string(), tables: t, file }
+    Syn { label: label.to_string(), kind: kind.to_string(), tables: t, file, bounds: Vec::new() }
+}
+
+fn with_bounds(mut s: Syn, bounds: Vec<Bound>) -> Syn {
+    s.bounds = bounds;
+    s
+}
+
+/// glyph 0, the boundary glyphs, then ordinary glyphs up to `ng`
+fn glyph_set(ng: usize, cff2: bool, subr_families: bool, ordinary_subrs: bool) -> (Vec<Vec<u8>>, Vec<Bound>) {
+    let (fam, bounds) = family_glyphs(1, cff2, subr_families);
+    let mut glyphs = vec![glyph(0, cff2, ordinary_subrs)];
+    glyphs.extend(fam);
+    for g in glyphs.len()..ng {
+        glyphs.push(glyph(g as i32, cff2, ordinary_subrs));
+    }
+    (glyphs, bounds)
 }
 
 pub fn fonts() -> Vec<Syn> {
@@ -152,18 +624,84 @@ pub fn fonts() -> Vec<Syn> {
         charset: CharsetSpec::IsoAdobe,
     };
     out.push(wrap("syn/cff2-subrs-2fd", "cff2", "CFF2", cffw::build_cff2(&spec, None), ng));
-    // CFF2 without any subroutine, more than 255 glyphs (CID output)
-    let nbig = 300usize;
+    // CFF2 without any subroutine, more than 255 glyphs (CID output); glyphs 1.. are the boundary glyphs
+    let nbig = 430usize;
+    let (glyphs, bounds) = glyph_set(nbig, true, false, false);
     let spec = CffSpec {
         cid: false,
-        glyphs: (0..nbig as i32).map(|g| glyph(g, true, false)).collect(),
+        glyphs,
         gsubrs: vec![],
         fds: vec![FdSpec { lsubrs: None, vsindex: None, private_extra: vec![] }],
         fdselect: vec![],
         fdselect_fmt: 0,
         charset: CharsetSpec::IsoAdobe,
     };
-    out.push(wrap("syn/cff2-plain-300", "cff2", "CFF2", cffw::build_cff2(&spec, None), nbig));
+    out.push(with_bounds(wrap("syn/cff2-plain-430", "cff2", "CFF2", cffw::build_cff2(&spec, None), nbig), bounds));
+    // CFF2, one Font DICT, no subroutines: the boundary glyphs (name-keyed CFF output)
+    let nb = 1 + FAMILIES.len() + 3;
+    let (glyphs, bounds) = glyph_set(nb, true, false, false);
+    let spec = CffSpec {
+        cid: false,
+        glyphs,
+        gsubrs: vec![],
+        fds: vec![FdSpec { lsubrs: None, vsindex: None, private_extra: vec![] }],
+        fdselect: vec![],
+        fdselect_fmt: 0,
+        charset: CharsetSpec::IsoAdobe,
+    };
+    out.push(with_bounds(wrap("syn/cff2-bounds-1fd", "cff2", "CFF2", cffw::build_cff2(&spec, None), nb), bounds));
+    // CFF2, two Font DICTs, no subroutines: the boundary glyphs (CID-keyed CFF output whatever the glyph count)
+    let (glyphs, bounds) = glyph_set(nb, true, false, false);
+    let spec = CffSpec {
+        cid: false,
+        glyphs,
+        gsubrs: vec![],
+        fds: vec![FdSpec { lsubrs: None, vsindex: None, private_extra: vec![] }, FdSpec { lsubrs: None, vsindex: None, private_extra: vec![] }],
+        fdselect: (0..nb).map(|g| (g % 2) as u8).collect(),
+        fdselect_fmt: 3,
+        charset: CharsetSpec::IsoAdobe,
+    };
+    out.push(with_bounds(wrap("syn/cff2-bounds-2fd", "cff2", "CFF2", cffw::build_cff2(&spec, None), nb), bounds));
+    // CFF2 allows 513 operands on the stack, CFF 48: glyphs whose operators take 48 operands (glyph 1: hstem, 49
+    // with the width the conversion puts in front when the advance is not the most frequent one; glyph 2:
+    // rlineto), 50 (glyph 3) and 96 (glyph 4)
+    let deep: Vec<Vec<u8>> = vec![
+        glyph(0, true, false),
+        cat(&[op(&(0..48).map(|i| 10 + i).collect::<Vec<i32>>(), HSTEM), op(&[5, 6], RMOVETO), op(&[20, 30, -5, 7], RLINETO)]),
+        cat(&[op(&[5, 5], RMOVETO), op(&(0..48).map(|i| 3 + i % 5 - 2 * (i % 3)).collect::<Vec<i32>>(), RLINETO)]),
+        cat(&[op(&[7, 5], RMOVETO), op(&(0..50).map(|i| 4 + i % 7 - 3 * (i % 2)).collect::<Vec<i32>>(), RLINETO)]),
+        cat(&[op(&[9, 5], RMOVETO), op(&(0..96).map(|i| 2 + i % 4 - (i % 3)).collect::<Vec<i32>>(), RRCURVETO)]),
+        glyph(5, true, false),
+    ];
+    let spec = CffSpec {
+        cid: false,
+        glyphs: deep,
+        gsubrs: vec![],
+        fds: vec![FdSpec { lsubrs: None, vsindex: None, private_extra: vec![] }],
+        fdselect: vec![],
+        fdselect_fmt: 0,
+        charset: CharsetSpec::IsoAdobe,
+    };
+    out.push(wrap("syn/cff2-deep-stack", "cff2", "CFF2", cffw::build_cff2(&spec, None), 6));
+    // CID-keyed CFF, three Font DICTs (two with local subroutines): the boundary glyphs; the subroutine
+    // families sit in Font DICT 0 / 1
+    let nbs = 1 + FAMILIES.len() + SUBR_FAMILIES.len() + 3;
+    let (glyphs, bounds) = glyph_set(nbs, false, true, false);
+    let first_subr = 1 + FAMILIES.len();
+    let spec = CffSpec {
+        cid: true,
+        glyphs,
+        gsubrs: gsubrs_b(false),
+        fds: vec![
+            FdSpec { lsubrs: Some(lsubrs_b(0, false)), vsindex: None, private_extra: vec![] },
+            FdSpec { lsubrs: Some(lsubrs_b(6, false)), vsindex: None, private_extra: vec![] },
+            FdSpec { lsubrs: None, vsindex: None, private_extra: vec![] },
+        ],
+        fdselect: (0..nbs).map(|g| if g >= first_subr && g < first_subr + SUBR_FAMILIES.len() { (g % 2) as u8 } else { (g % 3) as u8 }).collect(),
+        fdselect_fmt: 3,
+        charset: CharsetSpec::IdentityRange,
+    };
+    out.push(with_bounds(wrap("syn/cid-bounds-3fd", "cid", "CFF ", cffw::build_cff(&spec), nbs), bounds));
     // CID-keyed CFF, two Font DICTs with their own local subroutines, a third without
     let spec = CffSpec {
         cid: true,
@@ -179,16 +717,19 @@ pub fn fonts() -> Vec<Syn> {
         charset: CharsetSpec::IdentityRange,
     };
     out.push(wrap("syn/cid-subrs-3fd", "cid", "CFF ", cffw::build_cff(&spec), ng));
-    // name-keyed CFF with subroutines and more than 255 glyphs (Type 1 -> CID conversion)
+    // name-keyed CFF with subroutines and more than 255 glyphs (Type 1 -> CID conversion); glyphs 1.. are the
+    // boundary glyphs, the subroutine families included.  380 glyphs: every SID of the charset is a standard string.
+    let nbig = 380usize;
+    let (glyphs, bounds) = glyph_set(nbig, false, true, true);
     let spec = CffSpec {
         cid: false,
-        glyphs: (0..nbig as i32).map(|g| glyph(g, false, true)).collect(),
-        gsubrs: gsubrs(false),
-        fds: vec![FdSpec { lsubrs: Some(lsubrs(0, false)), vsindex: None, private_extra: vec![] }],
+        glyphs,
+        gsubrs: gsubrs_b(false),
+        fds: vec![FdSpec { lsubrs: Some(lsubrs_b(0, false)), vsindex: None, private_extra: vec![] }],
         fdselect: vec![],
         fdselect_fmt: 0,
         charset: CharsetSpec::Format0((1..nbig as u16).collect()),
     };
-    out.push(wrap("syn/cff-subrs-300", "cff", "CFF ", cffw::build_cff(&spec), nbig));
+    out.push(with_bounds(wrap("syn/cff-subrs-430", "cff", "CFF ", cffw::build_cff(&spec), nbig), bounds));
     out
 }
